@@ -477,10 +477,11 @@ def op_groups(seval, args):
 
     args = list(map(lookup_alias, map(process_arg, args)))
 
+    # scope and suffix are literal text, not regular expressions
     if seval.global_environment.read('CS'):
-        pattern = re.compile(rf'{seval.global_environment.read("CS")}\.[^\\.]+{args[0]}')
+        pattern = re.compile(rf'{re.escape(seval.global_environment.read("CS"))}\.[^\\.]+{re.escape(args[0])}')
     else:
-        pattern = re.compile(rf'.*{args[0]}')
+        pattern = re.compile(rf'.*{re.escape(args[0])}')
 
     candidates = list(filter(pattern.fullmatch, seval.traces.signals))
     groups = set()
